@@ -331,7 +331,8 @@ def lower_tuning_constants(value, ctx) -> list:
     """Size thresholds far above simulated sizes (a piece-wise path above 2^24 samples, a cap at 128 MiB per block, a
     scratch limit) cannot be reached by making scenarios that large; the simulator moves the threshold instead.  A
     tuning constant is recognised by convention: a module-level ALL-CAPS name of a pure-Python sigpyproc module bound to
-    a plain int >= 4096 (physical constants are floats; format limits such as 80-character strings are far smaller).
+    a plain int >= 4096, or a module-level name / class attribute of any case bound to a plain int >= 65536 (physical
+    constants are floats; format limits such as 80-character strings are far smaller).
     For the run, each is set to `value` (a few hundred: above every format limit, below the scenario's block sizes).
     The pinned tree has no such constant, so this changes nothing there; the constants lowered are logged and named in
     the class of a violation that needs them.  Returns what to restore."""
@@ -347,12 +348,24 @@ def lower_tuning_constants(value, ctx) -> list:
     originals = set()
     for name, modobj in mods:
         for k, v in sorted(vars(modobj).items()):
-            if k.isupper() and type(v) is int and v >= 4096:
+            if type(v) is int and not k.startswith("__") and ((k.isupper() and v >= 4096) or v >= 65536):
                 restore.append((modobj, k, v))
                 originals.add(v)
                 setattr(modobj, k, int(value))
                 ctx.probe("tuning-constant-lowered")
                 ctx.log("knob", name, k, int(value))
+            elif isinstance(v, type) and getattr(v, "__module__", None) == name:
+                # ... and the same kept as a class attribute (`direct_write_min = 64 << 20`), whatever its case
+                for k2, v2 in sorted(vars(v).items(), key=lambda kv: kv[0]):
+                    if type(v2) is int and not k2.startswith("__") and v2 >= 65536:
+                        try:
+                            setattr(v, k2, int(value))
+                        except (AttributeError, TypeError):
+                            continue
+                        restore.append((v, k2, v2))
+                        originals.add(v2)
+                        ctx.probe("tuning-constant-lowered")
+                        ctx.log("knob", name, f"{v.__name__}.{k2}", int(value))
     if not originals:
         return restore
     # the same constants where they were bound as default argument values (`def f(x, max_size=MAX_WRITE_SAMPLES)`)
